@@ -13,7 +13,8 @@ LEVEL = "exploration"
 RULE = (
     "Fixed-size struct shapes (widths 1..64, f32/f64, enums of every width class, nested structs, "
     "arrays of scalars/structs/arrays, ids out of declaration order, renamed bindings, several "
-    "protocols, signal blocks on scalar fields) are parsed by the real front end; for every binding "
+    "protocols, signal blocks on scalar fields) are parsed by the real front end (every third one is "
+    "also built directly with the node classes, fields in declaration order); for every binding "
     "and both unroll_arrays settings the list returned by make_encoder('packed').generate(impl) is "
     "checked (a) structurally: starts at 0, contiguous, no overlap, unique names, total = struct "
     "size; (b) against the reference layout (names, order, widths); (c) history: one long-lived "
@@ -117,9 +118,11 @@ def one_schema(run, i):
     r = run.rng("schema", i)
     decls = cansch.gen_layout_schema(r)
     check_decls(run, decls, r)
+    if i % 3 == 0:
+        check_decls(run, decls, run.rng("api", i), variant="api")
 
 
-def check_decls(run, decls, r):
+def check_decls(run, decls, r, variant="parsed"):
     text = S.print_schema(decls)
     run._c04_decls = decls
     res = CC.parse(text)
@@ -128,6 +131,13 @@ def check_decls(run, decls, r):
         return
     fcp = res.unwrap()
     sch = S.Sch(decls)
+    if variant == "api":
+        # the same schema built directly with the node classes (no parser in between): the layout
+        # must not depend on anything the parser does to the tree
+        from . import c09
+
+        fcp = c09.build(c09.tree_of(decls))
+        run.count("api_built_trees")
     bindings = []
     for d in sch.impls():
         impls = [x for x in fcp.impls if x.name == S.impl_name(d) and x.protocol == d["protocol"]]
@@ -216,7 +226,7 @@ def run(run):
 
 
 def conclude(run):
-    run.require("layouts_checked", "option_leaves_checked", "history_steps", "histories", "history_failing_calls")
+    run.require("api_built_trees", "layouts_checked", "option_leaves_checked", "history_steps", "histories", "history_failing_calls")
 
 
 def replay(run, case):
